@@ -3,7 +3,7 @@
    (cleanup half: c19_cleanup below).
    Quantification: every duration d (incl. 0), every first-poll delay p0, every inner completion
    time (before / at / after the deadline, never), every inner result. *)
-From HD Require Import common.Base timeout.Model timeout.Spec timeout.Proofs.
+From HD Require Import common.Base timeout.Model timeout.Spec timeout.Sched timeout.Proofs.
 From HD Require http.Model pool.Model pool.Spec pool.ProofsC03 pool.LiveC03c.
 Local Open Scope N_scope.
 
@@ -34,6 +34,35 @@ Theorem c19_handover : forall d p0 ti res h1 h2,
   run_timeout (mkT d p0 ti res h1) = run_timeout (mkT d p0 ti res h2).
 Proof. exact run_timeout_handover. Qed.
 Print Assumptions c19_handover.
+
+(* POLL BY POLL.  The driving task may poll the future at any further instants, in any number and order (spurious
+   wake-ups): after an unready poll the next one happens at the earliest of the registered wake instant and the later
+   spurious instants.  For EVERY list of spurious instants the outcome (result, instant of resolution = instant at which
+   the inner work is dropped) is that of the closed form, hence accepted by the monitor and within the deadline. *)
+Theorem c19_spurious_polls : forall c sp, run_sched c sp = run_timeout c.
+Proof. exact run_sched_eq. Qed.
+Print Assumptions c19_spurious_polls.
+
+Theorem c19_monitor_any_polls : forall c sp,
+  mon_C19 c (fst (run_sched c sp)) (snd (run_sched c sp)) (snd (run_sched c sp)) = true.
+Proof. intros c sp. rewrite run_sched_eq. exact (run_timeout_mon c). Qed.
+Print Assumptions c19_monitor_any_polls.
+
+(* a late executor: whenever the poll after the wake-up happens (t' >= the wake instant), that poll resolves - with the
+   inner result iff the inner work is ready by then (it is asked first), with the timeout error otherwise *)
+Theorem c19_late_poll : forall c t',
+  next_wake c <= t' ->
+  poll_at c t' = Some (match t_ti c with
+                       | Some ti => if ti <=? t' then TInner (t_res c) else TTimeout
+                       | None => TTimeout
+                       end).
+Proof. exact late_poll_resolves. Qed.
+Print Assumptions c19_late_poll.
+
+Example c19_sched_example :
+  run_sched (mkT 10 0 (Some 11) (IOk 1) false) [3; 12; 7; 3; 10] = (TTimeout, 10)
+  /\ polls (mkT 10 0 (Some 11) (IOk 1) false) [3; 12; 7; 3; 10] = 4.
+Proof. vm_compute. auto. Qed.
 
 (* CLEANUP HALF.  When the deadline fires the TimeoutFuture drops its inner future (c19_monitor: the
    inner work is dropped at the instant of resolution); for a pooled request that is the [Cancel]
